@@ -167,6 +167,31 @@ class SymEx:
     def fn(self):
         return self.frames[-1]
 
+    def _consuming_names(self, fn):
+        c = getattr(fn, '_consuming', None)
+        if c is None:
+            c = set()
+            for n in ast.walk(fn.node):
+                subs = []
+                if isinstance(n, ast.Call):
+                    subs = list(n.args) + [k.value for k in n.keywords]
+                elif isinstance(n, (ast.For, ast.comprehension)):
+                    subs = [n.iter]
+                elif isinstance(n, (ast.Starred, ast.YieldFrom)):
+                    subs = [n.value]
+                elif isinstance(n, ast.Compare) and any(isinstance(o, (ast.In, ast.NotIn)) for o in n.ops):
+                    subs = list(n.comparators)
+                for s in subs:
+                    if isinstance(s, ast.Starred):
+                        s = s.value
+                    if isinstance(s, ast.Name):
+                        c.add(id(s))
+            try:
+                fn._consuming = c
+            except Exception:
+                pass
+        return c
+
     def site(self, node):
         return '%s:%d' % (self.fn.path, getattr(node, 'lineno', 0))
 
@@ -771,7 +796,14 @@ class SymEx:
 
     def name(self, e, st):
         if e.id in st.env:
-            return st.env[e.id]
+            v = st.env[e.id]
+            if _single_use(v) and id(e) in self._consuming_names(self.fn):
+                # a generator object bound to a local is exhausted by its first consumer: any later consumer sees it empty
+                k = '@consumed:' + e.id
+                if st.env.get(k) is v:
+                    return ('list', ())
+                st.env[k] = v
+            return v
         if e.id in ('True', 'False', 'None'):
             return ('const', e.id)
         fn = self.fn
@@ -1128,7 +1160,11 @@ class SymEx:
         y = st
         if x.events:
             y = st.ev(Ev('comp', events=x.events, site=self.site(e), fn=self.fn.qn))
-        return [(y, ('comp', kind, elt, tuple(gens)))]
+        used = {k: v for k, v in x.env.items() if k.startswith('@consumed:') and st.env.get(k) is not v}
+        if used:
+            y = y.copy()
+            y.env.update(used)
+        return [(y, _fuse_comp(('comp', kind, elt, tuple(gens))))]
 
     # ------------------------------------------------------------------ calls
     def bind(self, callee, args, kwargs, skip_self=True):
@@ -1331,6 +1367,8 @@ class SymEx:
             return [(st, args[0])]
         if fv == ('ext', 'FLOAT') and len(args) == 1 and not kws and args[0][0] != 'str':
             return [(st, args[0])]          # float(x) is the identity on numbers (over the reals)
+        if fv[0] == 'ext' and len(args) == 1 and not kws and args[0] in (('list', ()), ('dict', ())) and fv[1] in _EMPTY_FOLD:
+            return [(st, _EMPTY_FOLD[fv[1]])]
         if fv == ('ext', 'COPY') and len(args) == 1 and not kws:
             return [(st, args[0])]
         if fv[0] == 'ext':
@@ -1353,6 +1391,33 @@ class SymEx:
 _BUILTINS = set(dir(__builtins__)) if not isinstance(__builtins__, dict) else set(__builtins__)
 
 
+_EMPTY_FOLD = {'SUM': ZERO, 'LEN': ZERO, 'ANY': ('const', 'False'), 'ALL': ('const', 'True')}
+
+
+def _fuse_comp(c):
+    """(f(x) for x in (g(y) for y in it if p(y)) if q(x))  ==  (f(g(y)) for y in it if p(y) if q(g(y)));  a comprehension over nothing is empty"""
+    kind, elt, gens = c[1], c[2], c[3]
+    if any(g[1] == ('list', ()) for g in gens):
+        return ('dict', ()) if kind == 'dict' else ('list', ())
+    if len(gens) == 1 and kind != 'dict':
+        shape, it, ifs = gens[0]
+        if it[0] == 'comp' and it[1] in ('gen', 'list') and len(shape) == 1 and shape[0][0] == 'bv' \
+                and not any(x[0] == 'comp' for x in T.subterms(elt)) and not any(x[0] == 'comp' for i in ifs for x in T.subterms(i)):
+            bv, ielt, igens = shape[0], it[2], it[3]
+            f = lambda z: ielt if z == bv else None
+            elt2 = T.replace(elt, f)
+            ifs2 = tuple(T.replace(i, f) for i in ifs)
+            last = igens[-1]
+            return ('comp', kind, elt2, tuple(igens[:-1]) + ((last[0], last[1], tuple(last[2]) + ifs2),))
+    return c
+
+
+def _single_use(v):
+    return isinstance(v, tuple) and len(v) > 1 and ((v[0] == 'comp' and v[1] == 'gen') or
+                                                    (v[0] == 'call' and v[1] in (('ext', 'builtins.map'), ('ext', 'builtins.filter'), ('ext', 'ZIP'), ('ext', 'builtins.iter'),
+                                                                                 ('ext', 'builtins.reversed'), ('ext', 'ENUMERATE'))))
+
+
 REDUCERS = {'ANY', 'ALL', 'SUM', 'MAX', 'MIN', 'SORTED', 'SET', 'LIST', 'TUPLE', 'LEN', 'MEAN', 'STD', 'DICT'}
 
 
@@ -1361,6 +1426,10 @@ def _canon_reducer_args(fv, args):
     if fv[0] != 'ext' or fv[1] not in REDUCERS or not args or args[0][0] != 'comp':
         return args
     c = args[0]
+    if c[1] != 'dict':
+        c = _fuse_comp(c)
+        if c[0] != 'comp':
+            return [c] + list(args[1:])
     if c[1] == 'list' and fv[1] != 'LEN':
         c = ('comp', 'gen') + c[2:]
     if c[1] == 'gen' and len(c[3]) == 1 and not c[3][0][2] and len(c[3][0][0]) == 1 and c[2] == c[3][0][0][0]:
@@ -1514,6 +1583,16 @@ class Valuation:
                     return max(vs)
                 if name == 'MIN':
                     return min(vs)
+        if t[0] == 'call' and t[1][0] == 'meth' and t[1][1] in ('date', 'normalize', 'to_pydatetime', 'floor', 'toordinal') and len(t[2]) >= 1:
+            # instants are numbers of days: the calendar date of an instant is its whole part
+            x = self.value(t[2][0])
+            if x is not None:
+                import math
+                if t[1][1] == 'to_pydatetime':
+                    return x
+                if t[1][1] == 'floor' and not (len(t[2]) == 2 and t[2][1] in (('str', 'D'), ('str', '1D'), ('str', 'd'))):
+                    return None
+                return Fraction(math.floor(x))
         if t[0] == 'call' and t[1] == ('ext', 'pandas.Timedelta') and not t[2]:
             # a duration in days
             kws = dict(t[3])
